@@ -20,8 +20,10 @@ out += ["", "### 12.2 Seeded changes (independent sub-agents; property text + sc
         "`VERIF_REPO=<worktree with the patch> ./check <property> <tier>` at the time recorded in meta.json (1 = caught with a VIOLATION line, "
         "0 = missed, 2 = inconclusive). `history` keeps earlier results: a miss followed by a catch means the check was strengthened. "
         "`other checks` = quick exit of other properties' checks against the same change (`tools/crosscheck.py`), where the change belongs "
-        "to code another property owns (e.g. a schedule slip aimed at C01 is caught by the C18 check).", "",
-        "| id | property | what it needs to manifest | quick | thorough | earlier results | other checks |", "|---|---|---|---|---|---|---|"]
+        "to code another property owns (e.g. a schedule slip aimed at C01 is caught by the C18 check). ",
+        "`final` = the same quick check against the change re-applied (3-way) to the FINAL tree with all repairs (`tools/reseed_all.py`); "
+        "`n/a` = the patch no longer applies because a later `fix:` commit rewrote the code it edits.", "",
+        "| id | property | what it needs to manifest | quick | thorough | earlier results | other checks | final |", "|---|---|---|---|---|---|---|---|"]
 for d in sorted(glob.glob(os.path.join(V, "seeded", "*"))):
     mp = os.path.join(d, "meta.json")
     if not os.path.exists(mp):
@@ -33,7 +35,9 @@ for d in sorted(glob.glob(os.path.join(V, "seeded", "*"))):
     t = m.get("thorough_result", {}).get("exit", "") if isinstance(m.get("thorough_result"), dict) else ""
     hist = ", ".join(str((h or {}).get("exit")) for h in m.get("history", []) if h)
     cross = ", ".join("%s: %s" % (k, v.get("exit")) for k, v in sorted((m.get("cross") or {}).items()))
-    out.append("| %s | %s | %s | %s | %s | %s | %s |" % (m["id"], m["property"], need, q, t, hist, cross))
+    fin = m.get("final") or {}
+    final = "" if not fin else ("n/a" if not fin.get("applies") else ("build fails" if fin.get("builds") is False else str(fin.get("exit"))))
+    out.append("| %s | %s | %s | %s | %s | %s | %s | %s |" % (m["id"], m["property"], need, q, t, hist, cross, final))
 out += ["", "### 12.3 Per-property and per-growth-item implementation notes", "",
         "Growth items (`Gnn`, DESIGN section 5 / BUILDERS.md growth brief) extend the specification beyond the twenty listed properties; each has its own statement at the top of its notes, its own `./check Gnn quick|thorough`, and is not part of MANIFEST.json's property claims.", "",
         "Included verbatim from `notes/Cxx.md` (written by the builder of each check: constants, measured state counts, what is compared, "
